@@ -218,6 +218,8 @@ func tcTotality(o *sup.Outcome) string {
 		return ""
 	case !o.Res.ParseOK || !o.Res.TcRan:
 		return ""
+	case strings.Contains(o.Res.TcErr, "internal typechecker error"):
+		return "the checker panicked internally (recovered and reported as an error): " + errClass(o.Res.TcErr)
 	case o.Res.TcOK && !o.Res.TcCompleted:
 		return "success reported although the checker did not run to its end"
 	case o.Res.TcStepsAfter > 0:
